@@ -1,6 +1,6 @@
 (* Extraction of the C18 model + monitors. ExtrOcamlBasic only; Z/N/nat/string stay Coq datatypes. *)
 From Coq Require Import Extraction ExtrOcamlBasic ZArith String List.
-From Ice Require Import Model.ConvTypes Model.PrioSpec Model.GatherSpec Model.GatherCycle.
+From Ice Require Import Model.ConvTypes Model.PrioSpec Model.GatherSpec Model.GatherStateCycle.
 Extraction "model.ml" conv_witness failed all_ok
   supported_v6_partial parse_ip local_addrs local_ifaces listen_in_range look_of
   gather_model corresponds C18_gather_checks C18_finish_checks mkCfg mkIface mkEnv mkVariant mkOcand mkOsock
